@@ -1,0 +1,88 @@
+//go:build verif
+
+package shell
+
+// Machine-checked contracts for /verif (govc). Comment-only, compiled only
+// with -tags verif; changes no behaviour.
+//
+// C25: a process is started (exec.CommandContext) only after
+// validateAndAcquire returned nil for exactly the command and arguments that
+// are executed. slotBalance is a ghost counter of session slots taken and not
+// yet given back by the functions below.
+
+//@ guarded Executor.mu: sessions
+//@ ghost var slotBalance int
+
+//@ initcall[C25] dangerousArgPattern = regexp.MustCompile("[;&|$`(){}[\\]<>\\\\!*?~]")
+
+//@ func (*Executor).ValidateAuth
+//@ prop C25
+//@ ensures err == nil ==> e.config.PasswordHash == "" || bcryptOK(e.config.PasswordHash, password)
+
+//@ func (*Executor).hasWildcard
+//@ prop C25
+//@ check bounds
+//@ loop 0 invariant -1 <= rangeindex && rangeindex < len(e.config.Whitelist) && forall j in 0..rangeindex+1: e.config.Whitelist[j] != "*"
+//@ ensures result <==> exists j in 0..len(e.config.Whitelist): e.config.Whitelist[j] == "*"
+
+//@ func (*Executor).IsCommandAllowed
+//@ prop C25
+//@ check bounds
+//@ loop 0 invariant -1 <= rangeindex && rangeindex < len(e.config.Whitelist) && forall j in 0..rangeindex+1: e.config.Whitelist[j] != command
+//@ ensures result ==> len(e.config.Whitelist) > 0
+//@ ensures result ==> (exists j in 0..len(e.config.Whitelist): e.config.Whitelist[j] == "*") || ((exists j in 0..len(e.config.Whitelist): e.config.Whitelist[j] == command) && !containschar(command, '/') && !containschar(command, 92))
+
+//@ func (*Executor).ValidateArgs
+//@ prop C25
+//@ check bounds
+//@ loop 0 invariant -1 <= rangeindex && rangeindex < len(args) && forall j in 0..rangeindex+1: !argDangerous(args[j]) && !isAbsPath(args[j])
+//@ ensures err == nil ==> (exists j in 0..len(e.config.Whitelist): e.config.Whitelist[j] == "*") || forall j in 0..len(args): !argDangerous(args[j]) && !isAbsPath(args[j])
+
+//@ func (*Executor).AcquireSession
+//@ prop C25
+//@ check lockset
+//@ ghostset slotBalance = old(slotBalance) + ite(err == nil, 1, 0)
+//@ ensures err == nil ==> e.sessions == old(e.sessions) + 1
+//@ ensures err == nil && e.config.MaxSessions > 0 ==> e.sessions <= e.config.MaxSessions
+//@ ensures err != nil ==> e.sessions == old(e.sessions)
+
+//@ func (*Executor).ReleaseSession
+//@ prop C25
+//@ check lockset
+//@ ghostset slotBalance = old(slotBalance) - 1
+//@ ensures old(e.sessions) > 0 ==> e.sessions == old(e.sessions) - 1
+//@ ensures old(e.sessions) <= 0 ==> e.sessions == old(e.sessions)
+//@ ensures e.sessions <= old(e.sessions)
+
+//@ func (*Executor).validateAndAcquire
+//@ prop C25
+//@ ghostset slotBalance = old(slotBalance) + ite(err == nil, 1, 0)
+//@ ensures err == nil ==> e.config.Enabled
+//@ ensures err == nil ==> e.config.PasswordHash == "" || bcryptOK(e.config.PasswordHash, meta.Password)
+//@ ensures err == nil ==> len(e.config.Whitelist) > 0
+//@ ensures err == nil ==> (exists j in 0..len(e.config.Whitelist): e.config.Whitelist[j] == "*") || ((exists j in 0..len(e.config.Whitelist): e.config.Whitelist[j] == meta.Command) && !containschar(meta.Command, '/') && !containschar(meta.Command, 92) && forall j in 0..len(meta.Args): !argDangerous(meta.Args[j]) && !isAbsPath(meta.Args[j]))
+
+//@ func (*Executor).NewSession
+//@ prop C25
+//@ modifies *, slotBalance
+//@ after call validateAndAcquire let vErr = $ret
+//@ at call exec.CommandContext assert vErr == nil && $1 == old(meta.Command) && $2 == old(meta.Args)
+//@ ensures slotBalance == old(slotBalance) + ite(err == nil, 1, 0)
+
+//@ func (*Executor).NewPTYSession
+//@ prop C25
+//@ modifies *, slotBalance
+//@ ensures slotBalance == old(slotBalance) + ite(err == nil, 1, 0)
+//@ after call validateAndAcquire let vErr = $ret
+//@ at call exec.CommandContext assert vErr == nil && $1 == old(meta.Command) && $2 == old(meta.Args)
+
+//@ census[C25] exec.CommandContext in (*Executor).NewPTYSession, (*Executor).NewSession
+//@ census[C25] exec.Command in -
+
+// The stream handler gives a slot back only on the path where NewSession had
+// taken one (start failure); NewSession/NewPTYSession release their own slot on
+// every error path (their slotBalance postconditions above).
+//@ func (*Handler).handleMetadata
+//@ prop C25
+//@ after call NewSession let sessErr = $ret1
+//@ at call ReleaseSession assert sessErr == nil
